@@ -38,9 +38,9 @@ def gen_cases(ctx):
     for seq in itertools.product(alpha3, repeat=3 if th else 2):
         cases.append(("ex-3threads", "ex 3 " + " ".join(["0c", "0c", "0g", "1t", "0c", "0c", "0g", "2t"] + list(seq))))
     # (e) random long runs, 2-5 threads
-    for i in range(4000 if th else 500):
+    for i in range(4000 if th else 300):
         n = r.choice([2, 3, 3, 4, 5])
-        cases.append(("random", "rnd %d %d %d" % (n, r.next() >> 1, r.choice([30, 60, 120, 240]))))
+        cases.append(("random", "rnd %d %d %d" % (n, r.next() >> 1, r.choice([30, 60, 120, 240] if th else [30, 60, 120]))))
     return cases
 
 
